@@ -184,6 +184,25 @@ def hopo_state(pi: int, R: int, prev_tick: int, gap: int, tap: bool, forced: boo
     return done(got is want)
 
 
+def hopo_twice(pi: int, R1: int, R2: int, gap: int, forced: bool) -> bool:
+    """
+    pre: 0 <= pi < len(PAIRS)
+    pre: R1 >= 1 and R2 >= 1 and gap >= 1
+    post: _
+    """
+    # the same pair of notes at the same distance judged at two resolutions in one process (two charts
+    # parsed one after the other): each decision depends on ITS resolution only
+    note, pnote = PAIRS[pi]
+    ok = True
+    with H.patched((chartparse.tick, "note_duration_to_ticks", _triplet_summary)):
+        for R in (R1, R2, R1):
+            prev = NoteEvent(tick=10, timestamp=AbsTime(0), end_timestamp=AbsTime(0), note=pnote, hopo_state=HOPOState.STRUM)
+            got = NoteEvent._compute_hopo_state(R, 10 + gap, note, False, forced, prev)
+            natural = (sum(note.value) <= 1) and (note.value != pnote.value) and (3 * gap <= R + 1)
+            ok = ok and got is (HOPOState.HOPO if (natural != forced) else HOPOState.STRUM)
+    return done(ok)
+
+
 # ---------------------------------------------------------------------------------------------
 # C03: sustains
 # ---------------------------------------------------------------------------------------------
